@@ -639,7 +639,7 @@ func (w *World) cinvoke(m map[string]string) {
 				w.logf("PANIC who=cw%d op=invoke %v", r, p)
 			}
 		}()
-		resp := new(Msg)
+		resp := staleMsg()
 		err := cc.Invoke(ctx, name, req, resp, grpc.Trailer(&trl))
 		w.setFlag(fmt.Sprintf("cterm%d", r))
 		if err == nil {
@@ -712,7 +712,7 @@ func (w *World) clientOp(op string, m map[string]string) {
 		w.logf("call who=cr%d op=recv", r)
 		if !rs.cr.do(func() {
 			defer guard(rs.cr.name, "recv")()
-			msg := new(Msg)
+			msg := staleMsg()
 			err := rs.stream.RecvMsg(msg)
 			if err == nil {
 				w.logf("ret who=cr%d op=recv res=ok len=%d dg=%x", r, len(msg.Value), digest(msg.Value))
@@ -814,7 +814,7 @@ func (w *World) handlerOp(op string, m map[string]string) {
 		w.logf("call who=hr%d op=recv", r)
 		if !h.hr.do(func() {
 			defer guard(h.hr.name, "recv")()
-			msg := new(Msg)
+			msg := staleMsg()
 			var err error
 			if h.dec != nil {
 				err = h.dec(msg)
@@ -1063,6 +1063,14 @@ func (w *World) Do(line string) {
 			p, dir = w.s2c(ts), "s2c"
 		}
 		p.release(func(what string) { w.logf("deliver dir=%s t=%d what=%s", dir, ts.n, what) })
+		// n=K: a burst - K frames become receivable back to back, the receive loop is not given
+		// the time to finish with one before the next is there
+		for k := 1; k < atoi(m["n"]); k++ {
+			if p.pending() == 0 {
+				break
+			}
+			p.release(func(what string) { w.logf("deliver dir=%s t=%d what=%s", dir, ts.n, what) })
+		}
 	case "fail":
 		w.logf("stim kind=fail t=%d", atoi(m["t"]))
 		if ts := w.tunnel(m); ts != nil && ts.link != nil {
